@@ -9,7 +9,10 @@
 #include "hep/mc/plain.hpp"
 #include "hep/mc/vegas.hpp"
 
+#include <cstdio>
+#include <fstream>
 #include <sstream>
+#include <unistd.h>
 
 using sym::H;
 
@@ -463,6 +466,343 @@ static void ob_rollback(H<T>& h)
     }
 }
 
+
+// ---- ob 4: iteration order and stop rule with an arbitrary callback (C12) ---------------------------
+template <typename T, typename Chk>
+struct scripted_callback
+{
+    H<T>* h;
+    sym::run_log<T>* log;
+    std::vector<std::size_t>* seen_results;       // results().size() at each invocation
+    std::vector<std::size_t>* seen_calls;         // integrand calls performed so far at each invocation
+    std::vector<bool>* answers;
+    std::string* last_text;
+    bool operator()(Chk const& c) const
+    {
+        seen_results->push_back(c.results().size());
+        seen_calls->push_back(log->calls.size());
+        *last_text = ser(c);
+        bool const more = h->choose("callback_returns", 2) == 0;
+        answers->push_back(more);
+        return more;
+    }
+};
+
+template <typename T, typename A>
+static void ob_order(H<T>& h)
+{
+    world<T> w(h);
+    std::size_t const n = h.get("n", 3);
+    auto const calls = calls_pattern(h.get("cp", 1), n);
+    A::params(w);
+    typename A::chk const base = A::fresh(w);
+    std::vector<std::size_t> seen_results, seen_calls;
+    std::vector<bool> answers;
+    std::string last_text;
+    scripted_callback<T, typename A::chk> cb{&h, &w.log, &seen_results, &seen_calls, &answers, &last_text};
+    typename A::chk const out = A::run(w, calls, base, cb);
+
+    std::size_t expected = n;
+    for (std::size_t k = 0; k != answers.size(); ++k) if (!answers[k]) { expected = k + 1; break; }
+    h.check("C12|order.callback_once_after_each_iteration_and_stop_at_first_false",
+        h.truth(answers.size() == expected && out.results().size() == expected));
+    bool ok = true;
+    std::size_t total = 0;
+    for (std::size_t k = 0; k != seen_results.size() && k < n; ++k)
+    {
+        total += calls[k];
+        ok = ok && seen_results[k] == k + 1 && seen_calls[k] == total;
+    }
+    h.check("C12|order.callback_sees_exactly_the_results_so_far_after_the_iteration_ran", h.truth(ok));
+    bool in_order = out.results().size() <= n;
+    for (std::size_t k = 0; k != out.results().size() && k < n; ++k) in_order = in_order && out.results()[k].calls() == calls[k];
+    h.check("C12|order.iterations_in_the_requested_order", h.truth(in_order));
+    h.check("C12|order.returned_checkpoint_is_the_one_the_last_callback_saw", texts_identical<T>(h, last_text, ser(out)));
+}
+
+// reference: variance weighted combination of the first k results; reached iff rel. error <= target
+template <typename T, typename R>
+static bool reference_reached(std::vector<R> const& results, std::size_t k, T const& target)
+{
+    using std::sqrt;
+    using sym::sqrt;
+    using std::fabs;
+    using sym::fabs;
+    T isum = T(), esum = T();
+    std::size_t nz = 0;
+    for (std::size_t i = 0; i != k; ++i)
+    {
+        auto const& r = results[i];
+        nz += r.non_zero_calls();
+        if (r.non_zero_calls() != 0)
+        {
+            T const iv = T(1.0) / r.variance();
+            isum += iv;
+            esum += iv * r.value();
+        }
+    }
+    T var = isum, est = esum;
+    if (nz != 0) { var = T(1.0) / isum; est = esum * var; }
+    T const rel = sqrt(var) / fabs(est);
+    return rel <= target;   // false for NaN
+}
+
+// ---- ob 5: built-in callback, stop rule (C12) -------------------------------------------------------
+template <typename T, typename A>
+static void ob_builtin_stop(H<T>& h)
+{
+    using std::sqrt;
+    using sym::sqrt;
+    using std::fabs;
+    using sym::fabs;
+    using std::isfinite;
+    using sym::isfinite;
+    world<T> w(h);
+    std::size_t const n = h.get("n", 2);
+    auto const calls = calls_pattern(h.get("cp", 3), n);
+    bool const zero_target = h.get("t0", 0) != 0;
+    A::params(w);
+    T const target = zero_target ? T(0.0) : w.h.input("target", 0.0, 1.0, true, false);
+    typename A::chk const base = A::fresh(w);
+    hep::callback<typename A::chk> cb(hep::callback_mode::silent, "", target);
+    if (h.get("unit", 0) != 0)
+    {
+        // unit form: run n iterations with a callback that never stops, then ask the built-in callback
+        typename A::chk const out = A::run(w, calls, base, always_true<typename A::chk>());
+        bool const more = cb(out);
+        if (zero_target)
+        {
+            h.check("C12|builtin.zero_target_never_ends_a_run_early", h.truth(more));
+            return;
+        }
+        h.check("C12|builtin.stops_iff_relative_error_of_combination_not_larger_than_target",
+            h.truth(more == !reference_reached<T>(out.results(), out.results().size(), target)));
+        return;
+    }
+    typename A::chk const out = A::run(w, calls, base, cb);
+    std::size_t const performed = out.results().size();
+    h.check("C12|builtin.at_least_one_at_most_n_iterations", h.truth(performed >= 1 && performed <= n));
+    if (performed < 1 || performed > n) return;
+    if (zero_target)
+    {
+        h.check("C12|builtin.zero_target_never_ends_a_run_early", h.truth(performed == n));
+        return;
+    }
+    for (std::size_t k = 1; k <= performed; ++k)
+    {
+        bool const reached = reference_reached<T>(out.results(), k, target);
+        if (k < performed)
+            h.check("C12|builtin.does_not_stop_before_the_target_is_reached", h.truth(!reached));
+        else if (performed < n)
+            h.check("C12|builtin.stops_only_when_the_target_is_reached", h.truth(reached));
+        else
+            h.check("C12|builtin.ran_all_iterations", h.truth(true));
+    }
+}
+
+// ---- ob 6: the four callback modes are equivalent; printing terminates (C20, C03 file) -------------------
+struct cout_silencer
+{
+    std::streambuf* old;
+    std::ostringstream sink;
+    cout_silencer() : old(std::cout.rdbuf(sink.rdbuf())) {}
+    ~cout_silencer() { std::cout.rdbuf(old); }
+};
+
+template <typename T, typename A>
+static void ob_modes(H<T>& h)
+{
+    world<T> w(h);
+    std::size_t const n = h.get("n", 2);
+    auto const calls = calls_pattern(h.get("cp", 3), n);
+    A::params(w);
+    T const target = h.get("t0", 1) != 0 ? T(0.0) : w.h.input("target", 0.0, 1.0, true, false);
+    typename A::chk const base = A::fresh(w);
+    std::string const file = "out/tmp_chk_" + std::to_string(::getpid()) + ".txt";
+    hep::callback_mode const modes[4] = {hep::callback_mode::silent, hep::callback_mode::silent_and_write_chkpt,
+        hep::callback_mode::verbose, hep::callback_mode::verbose_and_write_chkpt};
+    std::string texts[4];
+    std::string printed[4];
+    for (int m = 0; m != 4; ++m)
+    {
+        std::remove(file.c_str());
+        cout_silencer quiet;
+        hep::callback<typename A::chk> cb(modes[m], file, target);
+        typename A::chk const out = A::run(w, calls, base, cb);
+        texts[m] = ser(out);
+        printed[m] = quiet.sink.str();
+        if (m == 1 || m == 3)
+        {
+            std::ifstream in(file);
+            std::stringstream ss;
+            ss << in.rdbuf();
+            h.check("C03,C20|modes.file_holds_the_text_of_the_returned_checkpoint", texts_identical<T>(h, texts[m], ss.str()));
+            // resuming from the file: run the remaining iterations (if any) and compare with the full run
+            if (out.results().size() < n || true)
+            {
+                std::ifstream in2(file);
+                typename A::chk from_file = A::load(in2);
+                h.check("C03|modes.file_reads_back_to_the_same_checkpoint", texts_identical<T>(h, texts[m], ser(from_file)));
+            }
+        }
+    }
+    std::remove(file.c_str());
+    for (int m = 1; m != 4; ++m)
+        h.check("C20|modes.returned_checkpoint_identical_in_all_four_modes", texts_identical<T>(h, texts[0], texts[m]));
+    h.check("C20|modes.silent_modes_print_nothing", h.truth(printed[0].empty() && printed[1].empty()));
+    h.check("C20|modes.verbose_modes_print_one_block_per_iteration", h.truth(!printed[2].empty() && std::count(printed[2].begin(), printed[2].end(), '\n') ==
+            std::count(printed[3].begin(), printed[3].end(), '\n')));
+}
+
+// ---- ob 7: state threading (C19) --------------------------------------------------------------------
+template <typename T>
+static void state_checks(H<T>& h, world<T>& w, typename plain_alg<T>::chk const&, std::string const&) { (void) h; (void) w; }
+
+template <typename T>
+static void state_checks(H<T>& h, world<T>& w, typename vegas_alg<T>::chk const& c, std::string const& tag)
+{
+    for (std::size_t k = 0; k != c.results().size(); ++k)
+    {
+        hep::vegas_pdf<T> expected = (k == 0)
+            ? (w.user ? vegas_alg<T>::user_pdf(w) : hep::vegas_pdf<T>(w.d, w.B))
+            : hep::vegas_refine_pdf(c.results()[k - 1].pdf(), w.alpha, c.results()[k - 1].adjustment_data());
+        h.check(k == 0 ? "C19|state.first_iteration_uses_user_or_uniform_grid" + tag
+                       : "C19,C07|state.iteration_uses_refinement_of_previous_result" + tag,
+            same_pdf<T>(h, c.results()[k].pdf(), expected));
+    }
+    h.check("C19|state.alpha_kept" + tag, h.same(c.alpha(), w.alpha));
+}
+
+template <typename T>
+static void state_checks(H<T>& h, world<T>& w, typename multi_alg<T>::chk const& c, std::string const& tag)
+{
+    for (std::size_t k = 0; k != c.results().size(); ++k)
+    {
+        std::vector<T> expected;
+        if (k == 0)
+        {
+            if (w.user)
+                expected = hep::multi_channel_refine_weights(w.weights, std::vector<T>(w.C, T(1.0)), w.minw, w.beta);
+            else
+                expected.assign(w.C, T(1.0) / T(w.C));
+        }
+        else
+            expected = hep::multi_channel_refine_weights(c.results()[k - 1].channel_weights(),
+                c.results()[k - 1].adjustment_data(), w.minw, w.beta);
+        h.check(k == 0 ? "C19|state.first_iteration_uses_normalised_user_or_uniform_weights" + tag
+                       : "C19,C08|state.iteration_uses_refinement_of_previous_result" + tag,
+            same_vec<T>(h, c.results()[k].channel_weights(), expected));
+        // the weights any iteration is run with are a probability vector
+        T s = T();
+        bool fin = true;
+        for (auto const& x : c.results()[k].channel_weights()) { fin = fin && sym::isfinite(x); s += x; }
+        h.check("C01,C08|state.weights_of_every_iteration_are_finite_and_sum_to_one" + tag, h.truth(fin) && h.eq(s, T(1.0)));
+    }
+    h.check("C19|state.beta_and_minimum_weight_kept" + tag, h.same(c.beta(), w.beta) && h.same(c.min_weight(), w.minw));
+}
+
+template <typename T, typename A>
+static void ob_state(H<T>& h)
+{
+    world<T> w(h);
+    std::size_t const n = h.get("n", 2);
+    auto const calls = calls_pattern(h.get("cp", 1), n);
+    A::params(w);
+    typename A::chk const base = A::fresh(w);
+    typename A::chk const full = A::run(w, calls, base, always_true<typename A::chk>());
+    state_checks<T>(h, w, full, "[uninterrupted]");
+    // resumed from text after the first iteration
+    if (n >= 2)
+    {
+        std::vector<std::size_t> first(calls.begin(), calls.begin() + 1), rest(calls.begin() + 1, calls.end());
+        typename A::chk part = A::run(w, first, base, always_true<typename A::chk>());
+        bool ok = false;
+        typename A::chk re = reload<T, A>(h, ser(part), "checkpoint", ok);
+        h.check("C19|state.checkpoint_read_back", h.truth(ok));
+        if (ok)
+        {
+            typename A::chk const fin = A::run(w, rest, re, always_true<typename A::chk>());
+            state_checks<T>(h, w, fin, "[resumed]");
+        }
+    }
+}
+
+// ---- ob 8: non-finite evaluations vs the same points returning zero, several adaptive iterations (C06) ----
+template <typename T, typename R>
+static sym::cond<T> same_but_counters(H<T>& h, R const& a, R const& b, std::size_t& poisoned)
+{
+    // a: poisoned run, b: sanitised run
+    auto c = h.truth(a.calls() == b.calls() && a.finite_calls() == b.finite_calls() && a.non_zero_calls() >= b.non_zero_calls())
+        && h.same(a.sum(), b.sum()) && h.same(a.sum_of_squares(), b.sum_of_squares())
+        && h.finite(a.sum()) && h.finite(a.sum_of_squares());
+    poisoned += a.non_zero_calls() - b.non_zero_calls();
+    c = c && h.truth(a.distributions().size() == b.distributions().size());
+    for (std::size_t i = 0; i != a.distributions().size() && i != b.distributions().size(); ++i)
+    {
+        auto const& ra = a.distributions()[i].results();
+        auto const& rb = b.distributions()[i].results();
+        c = c && h.truth(ra.size() == rb.size());
+        for (std::size_t k = 0; k != ra.size() && k != rb.size(); ++k)
+            c = c && h.same(ra[k].sum(), rb[k].sum()) && h.same(ra[k].sum_of_squares(), rb[k].sum_of_squares())
+                && h.finite(ra[k].sum()) && h.finite(ra[k].sum_of_squares());   // counters aside
+    }
+    return c;
+}
+
+template <typename T>
+static sym::cond<T> adaptive_same(H<T>& h, typename plain_alg<T>::chk const&, typename plain_alg<T>::chk const&) { return h.truth(true); }
+template <typename T>
+static sym::cond<T> adaptive_same(H<T>& h, typename vegas_alg<T>::chk const& a, typename vegas_alg<T>::chk const& b)
+{
+    auto c = h.truth(true);
+    for (std::size_t i = 0; i != a.results().size() && i != b.results().size(); ++i)
+    {
+        c = c && same_pdf<T>(h, a.results()[i].pdf(), b.results()[i].pdf())
+            && same_vec<T>(h, a.results()[i].adjustment_data(), b.results()[i].adjustment_data());
+        for (auto const& x : a.results()[i].adjustment_data()) c = c && h.finite(x);
+    }
+    return c && same_pdf<T>(h, a.pdf(), b.pdf());
+}
+template <typename T>
+static sym::cond<T> adaptive_same(H<T>& h, typename multi_alg<T>::chk const& a, typename multi_alg<T>::chk const& b)
+{
+    auto c = h.truth(true);
+    for (std::size_t i = 0; i != a.results().size() && i != b.results().size(); ++i)
+    {
+        c = c && same_vec<T>(h, a.results()[i].channel_weights(), b.results()[i].channel_weights())
+            && same_vec<T>(h, a.results()[i].adjustment_data(), b.results()[i].adjustment_data());
+        for (auto const& x : a.results()[i].adjustment_data()) c = c && h.finite(x);
+        for (auto const& x : a.results()[i].channel_weights()) c = c && h.finite(x);
+    }
+    return c && same_vec<T>(h, a.channel_weights(), b.channel_weights());
+}
+
+template <typename T, typename A>
+static void ob_poison(H<T>& h)
+{
+    world<T> w(h);
+    std::size_t const n = h.get("n", 2);
+    auto const calls = calls_pattern(h.get("cp", 0), n);
+    A::params(w);
+    typename A::chk const base = A::fresh(w);
+    w.f.sanitize = false;
+    typename A::chk const a = A::run(w, calls, base, always_true<typename A::chk>());
+    std::size_t poisoned_calls = 0;
+    for (auto const& c : w.log.calls)
+        if (c.f_kind == sym::V_NAN || c.f_kind == sym::V_PINF || c.f_kind == sym::V_NINF) ++poisoned_calls;
+    w.f.sanitize = true;
+    typename A::chk const b = A::run(w, calls, base, always_true<typename A::chk>());
+    w.f.sanitize = false;
+    h.check("C06|poison.same_number_of_iterations", h.truth(a.results().size() == b.results().size() && a.generator() == b.generator()));
+    auto c = h.truth(true);
+    std::size_t poisoned = 0;
+    for (std::size_t i = 0; i != a.results().size() && i != b.results().size(); ++i)
+        c = c && same_but_counters<T>(h, a.results()[i], b.results()[i], poisoned);
+    h.check("C06|poison.results_identical_to_the_run_in_which_the_same_points_returned_zero", c);
+    h.check("C06|poison.non_finite_evaluations_counted_as_non_zero_only", h.truth(poisoned == poisoned_calls));
+    h.check("C06|poison.adaptation_identical_and_finite_in_all_later_iterations", adaptive_same<T>(h, a, b));
+}
+
 // ---- dispatch ------------------------------------------------------------------------------------
 template <typename T, typename A>
 static void by_ob(H<T>& h)
@@ -471,6 +811,11 @@ static void by_ob(H<T>& h)
     {
     case 0: ob_resume<T, A>(h); break;
     case 3: ob_rollback<T, A>(h); break;
+    case 4: ob_order<T, A>(h); break;
+    case 5: ob_builtin_stop<T, A>(h); break;
+    case 6: ob_modes<T, A>(h); break;
+    case 7: ob_state<T, A>(h); break;
+    case 8: ob_poison<T, A>(h); break;
     }
 }
 
